@@ -4,6 +4,7 @@
    interpreter `Eval` that the correspondence run compares the real evaluator with. -/
 import JrsVerif.Proofs.Bind
 import JrsVerif.Model.Eval
+import JrsVerif.Proofs.EvalBind
 
 namespace JrsVerif.Bind
 
@@ -378,3 +379,28 @@ theorem call_style_invariant {V : Type} (ps : List Param) (hnd : (names ps).Nodu
     cases p.2 <;> simp [valueOf]
 
 end JrsVerif.Bind
+
+/-! ### the interpreter (spec side of the correspondence) binds arguments by the same rule -/
+namespace JrsVerif.EvalBind
+open JrsVerif.Eval
+
+/-- the definitional interpreter accepts a call exactly when the language rule does — the same
+    `SpecOk` that `parse_function_call` was proved equivalent to (`Bind.parseCall_ok_iff`) -/
+theorem interpreter_binding_ok_iff (ps : List Param) (hnd : (ps.map paramName).Nodup) (pos : List Ref)
+    (named : List (String × Ref)) :
+    (∃ bs, bindArgs ps pos named = .ok bs) ↔
+      Bind.SpecOk (absParams ps) pos.length (named.map (·.1)) :=
+  evalBind_ok_iff ps hnd pos named
+
+/-- … and gives every parameter the positional argument, named argument or default expression that
+    the rule's source (`Bind.specSrc`) names -/
+theorem interpreter_binding_assignment (ps : List Param) (hnd : (ps.map paramName).Nodup)
+    (pos : List Ref) (named : List (String × Ref)) (bs : List (String × Src))
+    (h : bindArgs ps pos named = .ok bs) (i : Nat) (p : Param) (hp : ps[i]? = some p) :
+    lookupE bs (paramName p) =
+      (Bind.specSrc pos.length (named.map (·.1)) i (paramName p, (paramDflt p).isSome)).bind
+        (srcOf pos named p) :=
+  evalBind_assignment ps hnd pos named bs h i p hp
+
+end JrsVerif.EvalBind
+
